@@ -680,6 +680,7 @@ func LoadYear(g *GlobalVarsMain, s *WeatherDataShared, year int) error {
 		if tmin > tmax+0.5 {
 			errorStr := fmt.Sprintf("%s Error in Weather data: Tmin(%0.3f) > Tmax(%0.3f) ", g.LOGID, tmin, tmax)
 			if g.DEBUGCHANNEL != nil {
+				verifYield("send.debug", g.LOGID, "")
 				g.DEBUGCHANNEL <- errorStr
 			} else {
 				log.Print(errorStr)
